@@ -65,4 +65,30 @@ theorem utf8_length_ascii (cs : List Char) (h : ∀ c ∈ cs, c.utf8Size = 1) : 
     simp only [utf8, List.flatMap_cons, List.length_append, String.length_utf8EncodeChar, List.length_cons] at this ⊢
     omega
 
+theorem readCharBytes_ascii (b : UInt8) (rest : List UInt8) (h : b < 0x80) :
+    readCharBytes b rest = some ([b], rest) := by
+  simp [readCharBytes, utf8SeqLen, h]
+
+theorem readLine_raw_ascii (line rest acc : List UInt8) (h : ∀ b ∈ line, b < 0x80 ∧ b ≠ 10)
+    (fuel : Nat) (hf : line.length < fuel) :
+    readLine true fuel (line ++ 10 :: rest) acc = .line (acc ++ line) true rest := by
+  induction line generalizing fuel acc with
+  | nil =>
+    cases fuel with
+    | zero => simp at hf
+    | succ f =>
+      simp [readLine, readCharBytes_ascii 10 rest (by decide)]
+  | cons b t ih =>
+    cases fuel with
+    | zero => simp at hf
+    | succ f =>
+      have hb := h b List.mem_cons_self
+      have ht : ∀ x ∈ t, x < 0x80 ∧ x ≠ 10 := fun x hx => h x (List.mem_cons_of_mem b hx)
+      have hlen : t.length < f := by simp at hf; omega
+      simp only [List.cons_append, readLine, readCharBytes_ascii b _ hb.1]
+      have h1 : ([b] = [10]) = False := by simp [hb.2]
+      simp only [h1, if_false, Bool.not_true, Bool.false_eq_true, and_false]
+      rw [ih (acc ++ [b]) ht f hlen]
+      simp
+
 end YashModel.Pipe
